@@ -33,6 +33,19 @@
                                  << /A (s) /B (s) >>) and `memo_leak_witness`.  A correct fragment F2 needs a PRIVACY condition
                                  (`Frag.inF2`, stated and tested by the judge, not proved): every alternative of a disjunction
                                  is a leaf check that occurs nowhere else among the reachable checks.
+    machine_complete             FULL, ALL specifications (disjunctions included): for every graph, context, object and every
+                                 WELL-FORMED specification (`Frag.wfSpec ctx c`, decidable, Spec/TypeCheckWF.lean: every name is
+                                 bound to a representation, no empty disjunction -- the three ways to leave check_type through an
+                                 exit that is not a verdict), `Conforms g ctx o c` implies that the machine (code as it is,
+                                 `Fix.tree`; every configuration `Complete.FixC`) ACCEPTS: the real checker never rejects a
+                                 conforming object and never panics on one, although the memo leaks (a memo hit only skips work).
+                                 `machine_complete_fuel`: any fuel; `machine_reject_sound`: a rejection is always right.
+                                 Proof: Lemmas/TypeCheckComplete.lean (invariant over the stack of pending sets: trusted sets
+                                 conform, an untrusted region sits above an in-progress disjunction that still has a conforming
+                                 alternative), Lemmas/ConformsNorm.lean (normalisation preserves conformance, limit reading).
+    machine_eq_conforms          the pair: completeness for ALL well-formed specifications, soundness on F1.  Every disagreement
+                                 between machine and specification is therefore a FALSE ACCEPT outside F1 (the three known
+                                 findings are of this kind) -- `machine_disagreement_is_false_accept`.
   Witness theorems (decide on concrete inputs; each is a corpus case replayed on the real check_type):
     memo_leak_witness, any_entry_skips_indirect_witness (known findings still in the tree) and, for the
     ORIGINAL code `Fix.orig`, disjunct_attrs_dropped_witness, named_disjunct_witness, selfref_not_null_witness,
@@ -44,6 +57,8 @@ import Parsley.Spec.Conforms
 import Parsley.Spec.TypeCheckFrag
 import Parsley.Lemmas.TypeCheckSound
 import Parsley.Lemmas.ConformsMono
+import Parsley.Spec.TypeCheckWF
+import Parsley.Lemmas.TypeCheckComplete
 namespace Parsley.C08
 open Parsley Parsley.TC Parsley.TC.Spec
 
@@ -402,10 +417,93 @@ theorem machine_eq_conforms_F1 (g : Graph) (ctx : Ctx) (o : Obj) (c : Chk) (hF :
 /-- The widest fragment on which C08's "machine = specification" is proved (= `machine_eq_conforms_F1`).
     FULL STATEMENT (not provable for the code as it is): the same without `hF`.  Missing: every specification
     with a reachable disjunction (false there: `memo_leak_witness`, `shared_alternative_leak_witness`), and
-    Any-typed entries with a bare indirect requirement (false there: `any_entry_skips_indirect_witness`). -/
+    Any-typed entries with a bare indirect requirement (false there: `any_entry_skips_indirect_witness`).
+    Only the SOUNDNESS direction (accept → Conforms) is missing there: the completeness direction holds for all
+    well-formed specifications (`machine_complete`, `machine_eq_conforms` below). -/
 theorem machine_eq_conforms_partial (g : Graph) (ctx : Ctx) (o : Obj) (c : Chk) (hF : Frag.inF1 ctx c = true) :
     verdict (checkTypeFuel Fix.tree g ctx (Term.workBound Fix.tree g ctx o c) o c) = true ↔ Conforms g ctx o c :=
   machine_eq_conforms_F1 g ctx o c hF
+
+/-! ### COMPLETENESS for ALL specifications, disjunctions included -/
+
+/-- C08, the completeness half at full strength, for every configuration of the repair flags satisfying
+    `Complete.FixC` (staleIdx, staleErr, namedDisj, disjAttrs, refChain on, trail off; the other flags are free)
+    and ANY fuel: on a conforming object of a well-formed specification the run ends with `accept` -- never with a
+    rejection, never with a panic -- unless the fuel runs out. -/
+theorem machine_complete_fuel (fx : Fix) (hfx : Complete.FixC fx) (g : Graph) (ctx : Ctx) (o : Obj) (c : Chk)
+    (hwf : Frag.wfSpec ctx c = true) (hc : Conforms g ctx o c) (fuel : Nat) :
+    (checkTypeFuel fx g ctx fuel o c).1 = .accept ∨ (checkTypeFuel fx g ctx fuel o c).1 = .outOfFuel :=
+  Complete.checkType_complete_fuel hfx g ctx o c hwf hc fuel
+
+/-- C08, the COMPLETENESS half for ALL specifications: every graph (reference chains, undefined and cyclic
+    references), every context of named (recursive) types, every object and every well-formed specification `c` --
+    arrays, heterogeneous arrays, dictionaries, wildcard entries, streams, DISJUNCTIONS (nested, behind names, with
+    predicates and indirect requirements of their own), Any-typed entries with indirect requirements: if the object
+    conforms under the declarative reading, the machine -- the code as it is, `Fix.tree` -- run with the work bound
+    of C09 ACCEPTS.  (The converse fails with disjunctions: `memo_leak_witness`.) -/
+theorem machine_complete (g : Graph) (ctx : Ctx) (o : Obj) (c : Chk) (hwf : Frag.wfSpec ctx c = true) :
+    Conforms g ctx o c →
+      (checkTypeFuel Fix.tree g ctx (Term.workBound Fix.tree g ctx o c) o c).1 = .accept :=
+  Complete.checkType_complete Complete.fixC_tree g ctx o c hwf
+
+/-- read the other way: a rejection (or any other outcome than `accept`) of the real checker is always right -/
+theorem machine_reject_sound (g : Graph) (ctx : Ctx) (o : Obj) (c : Chk) (hwf : Frag.wfSpec ctx c = true)
+    (h : verdict (checkTypeFuel Fix.tree g ctx (Term.workBound Fix.tree g ctx o c) o c) = false) :
+    ¬ Conforms g ctx o c := by
+  intro hc
+  have := machine_complete g ctx o c hwf hc
+  simp [verdict, this] at h
+
+/-- C08 "machine = specification" as the pair that is proved: COMPLETENESS for all well-formed specifications,
+    SOUNDNESS on fragment F1 (false outside it: `memo_leak_witness`, `any_entry_skips_indirect_witness`). -/
+theorem machine_eq_conforms (g : Graph) (ctx : Ctx) (o : Obj) (c : Chk) :
+    (Frag.wfSpec ctx c = true → Conforms g ctx o c →
+      verdict (checkTypeFuel Fix.tree g ctx (Term.workBound Fix.tree g ctx o c) o c) = true) ∧
+    (Frag.inF1 ctx c = true →
+      verdict (checkTypeFuel Fix.tree g ctx (Term.workBound Fix.tree g ctx o c) o c) = true → Conforms g ctx o c) := by
+  refine ⟨fun hwf hc => ?_, fun hF hv => (machine_eq_conforms_F1 g ctx o c hF).mp hv⟩
+  simp [verdict, machine_complete g ctx o c hwf hc]
+
+/-- every disagreement between the real checker and the declarative reading is a FALSE ACCEPT -/
+theorem machine_disagreement_is_false_accept (g : Graph) (ctx : Ctx) (o : Obj) (c : Chk)
+    (hwf : Frag.wfSpec ctx c = true)
+    (h : ¬ (verdict (checkTypeFuel Fix.tree g ctx (Term.workBound Fix.tree g ctx o c) o c) = true ↔ Conforms g ctx o c)) :
+    verdict (checkTypeFuel Fix.tree g ctx (Term.workBound Fix.tree g ctx o c) o c) = true ∧ ¬ Conforms g ctx o c := by
+  by_cases hc : Conforms g ctx o c
+  · exact absurd ⟨fun _ => hc, fun _ => (machine_eq_conforms g ctx o c).1 hwf hc⟩ h
+  · refine ⟨?_, hc⟩
+    cases hv : verdict (checkTypeFuel Fix.tree g ctx (Term.workBound Fix.tree g ctx o c) o c)
+    · exact absurd ⟨fun h' => (by rw [hv] at h'; cases h'), fun h' => absurd h' hc⟩ h
+    · rfl
+
+-- non-vacuity: the hypotheses hold on the specification of the memo-leak finding (compound alternatives), on a
+-- disjunction behind a name with an indirect requirement of its own inside a recursive type, and fail as intended
+example : Frag.wfSpec [] (.disj Attr.dflt (alts [alt1, alt2])) = true := by decide
+example : Frag.wfSpec namedD (.dict Attr.dflt (.cons kA .required (.named "t") .nil)) = true := by decide
+example : Frag.wfSpec [] (.dict Attr.dflt (.cons kA .optional (.named "nowhere") .nil)) = false := by decide  -- dangling name
+example : Frag.wfSpec [("a", .named "b"), ("b", I)] (.named "a") = false := by decide                  -- a name bound to a name
+example : Frag.wfSpec [] (.array Attr.dflt (.disj Attr.dflt .nil) none) = false := by decide              -- empty disjunction
+example : Complete.FixC Fix.tree := Complete.fixC_tree
+-- `<< /A 1 >>` conforms to (dict{A : Integer, B : Integer} | dict{A : Integer}) through its SECOND alternative; the
+-- first one fails after /A : Integer was taken up (and stays in the memo)
+theorem conf_int_I (n : Nat) : conf [] [] n (.int 1) I = true := by
+  cases n with
+  | zero => rfl
+  | succ n => rw [conf_leaf_const [] [] (.int 1) I rfl n]; decide
+example : Conforms [] [] (.dict (.cons kA (.int 1) .nil)) (.disj Attr.dflt (alts [alt1, alt2])) := by
+  intro n
+  cases n with
+  | zero => rfl
+  | succ n =>
+    cases n with
+    | zero => decide
+    | succ n =>
+      have := conf_int_I n
+      simp [conf, confStep, resolve, shapeOK, alts, alt1, alt2, ChkL.chks, ChkL.toList, entOK, ObjL.get, kA, kB,
+        Chk.attr, Attr.dflt, indOK, predOK, value, deref, this]
+example : (checkTypeFuel Fix.tree [] [] (Term.workBound Fix.tree [] [] (.dict (.cons kA (.int 1) .nil))
+    (.disj Attr.dflt (alts [alt1, alt2]))) (.dict (.cons kA (.int 1) .nil)) (.disj Attr.dflt (alts [alt1, alt2]))).1
+    = .accept := by decide +kernel
 
 -- every leaf check is in F1 (instance; the fragment subsumes the leaf fragment)
 example : Frag.inF1 [] (.prim ⟨some (.choice [.name [0x61]]), .required⟩ .name) = true := by decide
